@@ -180,6 +180,32 @@ def fam_pairs(ctx, rng):
             if len(ra.vertices) != len(rb.vertices):
                 ctx.violation('polyline:%s' % nm, '%d vertices in 2D, %d in 3D' % (len(ra.vertices), len(rb.vertices)), desc)
     if kind == 'polygon':
+        # the same loop with extra vertices placed off-centre on its edges at a perpendicular offset below the tolerance:
+        # both siblings must keep / drop the same vertices
+        base = [(v.x, v.y) for v in a.vertices]
+        loop = []
+        for i, p in enumerate(base):
+            nx = base[(i + 1) % len(base)]
+            loop.append(p)
+            if rng.random() < 0.6:
+                t = rng.choice([0.08, 0.15, 0.3, 0.5, 0.7, 0.85, 0.92])
+                ex, ey = nx[0] - p[0], nx[1] - p[1]
+                L = math.hypot(ex, ey)
+                h = rng.uniform(0.0, 0.01) * rng.choice([1, -1])
+                loop.append((p[0] + t * ex - h * ey / L, p[1] + t * ey + h * ex / L))
+        emb2 = lambda q: pl.xy_to_xyz(P2(q))
+        try:
+            da = Polygon2D([P2(q) for q in loop]).remove_colinear_vertices(0.01)
+            db = Face3D([emb2(q) for q in loop], pl).remove_colinear_vertices(0.01)
+            ctx.count('pair.polygon', key=(fk, 'remove_colinear_vertices:near_colinear'))
+            va = [(v.x, v.y) for v in da.vertices]
+            vb = [tuple(to2(pl, v)) for v in db.boundary]
+            same = len(va) == len(vb) and all(any(abs(p[0] - q_[0]) < 1e-7 and abs(p[1] - q_[1]) < 1e-7 for q_ in vb) for p in va)
+            if not same:
+                ctx.violation('polygon:remove_colinear_vertices:near_colinear', '2D keeps %d vertices, 3D keeps %d (or different ones)' % (len(va), len(vb)),
+                              dict(desc, loop=loop))
+        except AssertionError:
+            pass
         ra, rb = a.remove_colinear_vertices(0.01), b.remove_colinear_vertices(0.01)
         ctx.count('pair.polygon', key=(fk, 'remove_colinear_vertices'))
         if len(ra.vertices) != len(rb.vertices):
